@@ -66,9 +66,20 @@ TFail == IsEvent("Fail") /\ pc' = "failed"
 \* steps of the program that have no observable effect
 Silent == /\ (DelDone \/ Saved \/ EndRound \/ (~HasFinalEval /\ FinalEval))
           /\ UNCHANGED <<tid, l>>
+\* Named deviations: things the design never does but an implementation might.  They are enabled only when the
+\* recorded run demonstrably took them (the next event is not the one the design requires), so that the
+\* invariants - not a bare rejection - name what went wrong.
+NextIs(e) == l <= NEv /\ Ev.e = e
+DevSkipDelete == /\ pc = "del" /\ delq # <<>> /\ l <= NEv /\ Ev.e \notin {"Remove", "Crash", "Fail"}
+                 /\ pc' = "saved" /\ delq' = <<>>
+                 /\ UNCHANGED <<st, start, rnd, samp, cohort, fs, wname, crashes, result, loaded, tid, l>>
+DevSkipFinalEval == /\ pc = "final" /\ HasFinalEval /\ NextIs("Return")
+                    /\ pc' = "return"
+                    /\ UNCHANGED <<st, start, rnd, samp, cohort, fs, wname, delq, crashes, result, loaded, tid, l>>
 
 TraceNext == \/ TRead \/ TSetRound \/ TSample \/ TApply \/ TOpen \/ TWrite \/ TClose \/ TRename \/ TRemove
              \/ TPeriodic \/ TFinalEval \/ TReturn \/ TCrash \/ TFail \/ Silent
+             \/ DevSkipDelete \/ DevSkipFinalEval
 
 TraceSpec == TraceInit /\ [][TraceNext]_tvars
 
